@@ -17,7 +17,7 @@ import (
 	"verif/harness/sim"
 )
 
-// runWatchdog bounds one simulated run (generous: js generation takes seconds).
+// runWatchdog is the default bound on one simulated run (engines may set their own).
 const runWatchdog = 90 * time.Second
 
 var (
@@ -62,6 +62,7 @@ func (f *failure) key() string {
 }
 
 type runCtx struct {
+	replaysAllClean bool // set by minimise: every replay so far completed without a violation
 	cfg    *config
 	spec   *engineSpec
 	worker []string
@@ -295,7 +296,7 @@ func (rc *runCtx) search(seed uint64, deadline time.Time, perWorkerCount uint64)
 				progress := make(chan struct{}, 1)
 				stopDog := make(chan struct{})
 				go func() {
-					limit := runWatchdog
+					limit := rc.spec.dog()
 					t := time.NewTimer(limit)
 					defer t.Stop()
 					for {
@@ -369,7 +370,7 @@ func (rc *runCtx) search(seed uint64, deadline time.Time, perWorkerCount uint64)
 				cr := crashResult(rc.spec.property, last, stderr.String(), fmt.Sprintf("worker died during run %d (seed %d): %v", last, seed, err))
 				if hung {
 					cr = &sim.Result{Run: last, Violation: &sim.Violation{Invariant: rc.spec.property + ".hang", Signature: "run exceeded watchdog",
-						Detail: fmt.Sprintf("run %d (seed %d) made no progress for %v: the code under test is stuck (deadlock or livelock)", last, seed, runWatchdog)}}
+						Detail: fmt.Sprintf("run %d (seed %d) made no progress for %v: the code under test is stuck (deadlock or livelock)", last, seed, rc.spec.dog())}}
 				}
 				rc.addFailure(&failure{Seed: seed, Run: last, Crash: true, Stderr: stderr.String(), Res: cr})
 				first = last + uint64(n)
